@@ -105,6 +105,26 @@ inductive VStep
   | signerNonZero | verifyOverDataHash | unknown
   deriving DecidableEq, Repr
 
+/-- `round2.Start`. -/
+inductive R2Step
+  | finishedGuard | setFinished | checkBlockExisted | checkSignature | generateBlock | generateGuard
+  | addOnChainAsync | signalDone | returnNil | unknown
+  deriving DecidableEq, Repr
+
+/-- `groupSignGenerator.AddWitnessSign` / `addWitnessForce` / `genGroupSign`. -/
+inductive GStep
+  | recoveredGuard | force | dupGuard | store | atThreshold | belowThreshold
+  | alreadyValid | nilGuard | storeRecovered | emptyNote | returnTrue | unknown
+  deriving DecidableEq, Repr
+
+def expectedStart2Steps : List R2Step :=
+  [.finishedGuard, .setFinished, .checkBlockExisted, .checkSignature, .generateBlock, .generateGuard,
+   .addOnChainAsync, .signalDone, .returnNil]
+
+def expectedAddWitnessSignSteps : List GStep := [.recoveredGuard, .force]
+def expectedAddWitnessForceSteps : List GStep := [.dupGuard, .store, .atThreshold, .belowThreshold]
+def expectedGenGroupSignSteps : List GStep := [.alreadyValid, .nilGuard, .storeRecovered, .emptyNote, .returnTrue]
+
 /-- The statement order `update` (below) transcribes, for either value of the `bindsHash` fact. -/
 def expectedUpdateSteps (bindsHash : Bool) : List UStep :=
   [.typeCheck, .checkBlockExisted, .pkGuard] ++ (if bindsHash then [.bindHash] else []) ++
